@@ -61,7 +61,8 @@ def _startup(ctx, master, rule='C09.1'):
     graph, ops = M.record_ops(ctx, func)
     dels = [(n, r) for n, op, r, _c in ops if op == 'delete']
     puts = [(n, r) for n, op, r, _c in ops if op in ('put', 'update')]
-    ctx.require(dels and puts, 'record delete and put in init_schedule')
+    ctx.require(dels and puts, 'record delete and put in init_schedule',
+        rule=rule)
 
     def is_stored(expr):
         txt = N.txt(expr)
@@ -83,7 +84,7 @@ def _startup(ctx, master, rule='C09.1'):
     want_del = sx.expect(lambda e: e['stored'] and not e['model'])
     for node, rec in dels:
         loop = K.enclosing_for(graph, node, rec[1])
-        ctx.require(loop is not None, 'loop of the start-up delete')
+        ctx.require(loop is not None, 'loop of the start-up delete', rule=rule)
         tabs = sx.tables(loop.ast.iter, loop)
         ok = tabs is not None and all(
             t and all(want_del[r] == v for r, v in t.items()) for t in tabs)
@@ -94,7 +95,7 @@ def _startup(ctx, master, rule='C09.1'):
                construct='start-up delete domain')
     for node, rec in puts:
         loop = K.enclosing_for(graph, node, rec[1])
-        ctx.require(loop is not None, 'loop of the start-up create')
+        ctx.require(loop is not None, 'loop of the start-up create', rule=rule)
         tabs = sx.tables(loop.ast.iter, loop)
         ok = tabs is not None and {'model', 'stored', 'changed'} <= \
             (sx.used_all or set())
@@ -128,7 +129,8 @@ def _startup(ctx, master, rule='C09.1'):
             if cand.kind == 'for' and cand is not inner and \
                     inner in K.loop_body_nodes(cand):
                 outer = cand
-        ctx.require(outer is not None, 'server loop of the start-up delete')
+        ctx.require(outer is not None, 'server loop of the start-up delete',
+            rule=rule)
 
         def is_root(expr):
             return 'backend.list(' in N.txt(expr) and \
@@ -283,7 +285,7 @@ def _payload(ctx, master):
             for key, val in zip(sub.value.keys, sub.value.values):
                 src = K.rtxt(pdata, val)
                 written[key.value] = (src, sub)
-    ctx.require(written, 'record dictionary of _placement_data')
+    ctx.require(written, 'record dictionary of _placement_data', rule='C09.2')
     model = 'self.cell.apps[%s]' % param
     expect = {'identity': '%s.identity' % model,
               'expires': '%s.placement_expiry' % model}
@@ -361,7 +363,8 @@ def _payload(ctx, master):
                     ok, detail = _rmw_exception(ctx, func, graph, node,
                                                 call)
                 ctx.ob('C09.2', func, node, ok, detail)
-    ctx.require(writes >= 2, 'writes of instance placement records')
+    ctx.require(writes >= 2, 'writes of instance placement records',
+        rule='C09.2')
 
 
 def _rmw_exception(ctx, func, graph, node, call):
@@ -478,7 +481,8 @@ def _unsnapshotted(ctx, master):
                                'outside the routines the publication '
                                'accounts for' % (N.txt(tgt.value),
                                                  tgt.attr))
-    ctx.require(count >= 8, 'writers of placement_expiry/identity')
+    ctx.require(count >= 8, 'writers of placement_expiry/identity',
+        rule='C09.4')
     writer_callers(ctx, master)
 
 
@@ -535,7 +539,7 @@ def _reload(ctx):
     pairs = [(r, l) for r in removes for l in loads
              if K.find_path(r, [l], follow_exc=False) is not None]
     ctx.require(pairs, 'remove_server followed by load_server in '
-                       'reload_server')
+                       'reload_server', rule='C09.4')
     defs = M.local_defs(func)
 
     def restores(node):
@@ -626,7 +630,7 @@ def _removal(ctx, master):
     sups = [n for n, c in K.nodes_calling(
         graph, lambda c: K.is_meth(c, 'remove_app') and
         'super' in N.txt(c.func))]
-    ctx.require(sups, 'super().remove_app in Master.remove_app')
+    ctx.require(sups, 'super().remove_app in Master.remove_app', rule='C09.5')
     # the model's instance, whatever the local is called
     model = 'self.cell.apps[%s]' % func.params()[1]
     enz = N.Normaliser(env=K.func_env(func))
@@ -664,7 +668,7 @@ def _removal(ctx, master):
                            'instances leave the cell only through '
                            'Loader.remove_app (overridden by the master to '
                            'delete the record)')
-    ctx.require(n >= 1, 'call of Cell.remove_app')
+    ctx.require(n >= 1, 'call of Cell.remove_app', rule='C09.5')
     # finished before scheduled is deleted
     for cls in (loader, master):
         for f in cls.live_methods():
@@ -719,7 +723,7 @@ def _record_owner(ctx):
                        'outside the master/loader: the publication rules do '
                        'not see it')
     ctx.require(inside >= 5, 'record writers inside master/loader (positive '
-                             'example, found %d)' % inside)
+                             'example, found %d)' % inside, rule='C09.6')
 
 
 def _identity_with_placement(ctx):
@@ -732,7 +736,7 @@ def _identity_with_placement(ctx):
     loop = PlacementLoop(ctx)
     graph, func = loop.graph, loop.func
     scans = [n for n in loop.body() if n.kind == 'for' and n is not loop.head]
-    ctx.require(scans, 'victim scan in the placement loop')
+    ctx.require(scans, 'victim scan in the placement loop', rule='C09.2')
     for scan in scans:
         victim = sorted(N.for_targets(scan))[0]
         released = [n for n in K.loop_body_nodes(scan) if any(
